@@ -5,9 +5,9 @@ CONSTANTS
   NumChoices <- NC_small
   RunChoices <- RC_small
   OtherChoices = {"sst", "label16", "bool", "blank", "fstr", "fshr", "fnum"}
-  MaxCells = 4
+  MaxCells = 3
   MaxRun = 3
-  MaxIgn = 1
+  MaxIgn = 0
   WithDims = TRUE
 INVARIANTS Refines
 CHECK_DEADLOCK FALSE
